@@ -321,6 +321,26 @@ static void c12_relations(Context& cx)
                 continue;
             const int n = ea->lanes;
             T xs[64];
+            {
+                // special arguments first: the symmetry holds at the zeros (f(-0) = -f(+0) bit for bit), subnormals, the
+                // largest finite value, infinities, and at the values where the kernels switch algorithm
+                using L = std::numeric_limits<T>;
+                static const T sp[] = { (T)0, L::denorm_min(), L::min(), (T)1e-30, (T)1e-5, (T)0.25, (T)0.5, (T)0.75, (T)1, (T)1.5, (T)2, (T)3, (T)8, (T)20, (T)50, (T)100, (T)1e5, (T)1e9, (T)1e18, L::max(), L::infinity(), L::quiet_NaN() };
+                const int ns = (int)(sizeof sp / sizeof sp[0]);
+                for (int b0 = 0; b0 < ns; ++b0)
+                    for (int sg = 0; sg < 2; ++sg)
+                    {
+                        for (int l = 0; l < n; ++l)
+                            xs[l] = (sg ? -1 : 1) * sp[(b0 + l) % ns];
+                        cx.st.evaluations++;
+                        ++nontriv;
+                        c12_rel_batch<T>(cx, r, tg, ea, eb, xs, nullptr, b0 % n);
+                        // the special value alone among ordinary companions
+                        for (int l = 0; l < n; ++l)
+                            xs[l] = l == b0 % n ? (sg ? -1 : 1) * sp[b0] : comp[l % 8];
+                        c12_rel_batch<T>(cx, r, tg, ea, eb, xs, nullptr, (b0 + 1) % n);
+                    }
+            }
             if (sizeof(T) == 4)
             {
                 const uint64_t stride = thorough ? 67 : 4099;
